@@ -447,7 +447,8 @@ class RestAPI(object):
                 logging_level = logging_configuration.get("level", "OFF")
                 logging_configuration["level"] = logging_level
 
-                if logging_level not in {"OFF", "ALL", "ERROR", "FATAL"}:
+                if not (isinstance(logging_level, str) and
+                        logging_level in {"OFF", "ALL", "ERROR", "FATAL"}):
                     self.logger.error(
                         "RestAPI CreateStateMachine: Invalid logging configuration for State Machine '{}'.".format(name)
                     )
@@ -748,7 +749,8 @@ class RestAPI(object):
                     logging_level = logging_configuration.get("level", "OFF")
                     logging_configuration["level"] = logging_level
 
-                    if logging_level not in {"OFF", "ALL", "ERROR", "FATAL"}:
+                    if not (isinstance(logging_level, str) and
+                            logging_level in {"OFF", "ALL", "ERROR", "FATAL"}):
                         self.logger.error(
                             "RestAPI UpdateStateMachine: Invalid logging configuration for State Machine '{}'.".format(state_machine_arn)
                         )
